@@ -39,6 +39,20 @@ def main(argv):
   if replay:
     data = json.load(open(replay))
     return mod.replay(data)
+  # has a source file this property is anchored in changed since the models and generators were validated against it?
+  try:
+    import subprocess
+    from . import common
+    anchors = [json.loads(l) for l in open(os.path.join(common.VERIF, 'properties.jsonl'))]
+    files = next(a['anchors']['files'] for a in anchors if a['id'] == prop.upper())
+    # same interpreter as the translator (python3): AST dumps differ between Python versions
+    r = subprocess.run(['python3', os.path.join(common.VERIF, 'translate', 'fingerprint.py'), '--repo', common.REPO] + sorted(set(files)),
+                       capture_output=True, text=True, timeout=60)
+    changed = [l.strip() for l in r.stdout.split('\n') if l.strip()]
+    if changed and r.returncode == 0:
+      os.environ['VERIF_ESCALATED'] = ','.join(os.path.basename(f) for f in changed)
+  except Exception:
+    pass
   return mod.run(tier)
 
 
